@@ -157,4 +157,9 @@ def variants(path, rng, tier):
     out.append((f"{name}|icode-twins", icode_twins(s, rng)))
     out.append((f"{name}|reversed", reorder(s, rng, "reversed")))
     out.append((f"{name}|rotated-chains", reorder(s, rng, "rotate")))
+    # the smallest structures: two and three consecutive residues cut out of the file
+    if len(s.residues) >= 3:
+        k = rng.randrange(len(s.residues) - 2)
+        out.append((f"{name}|two-residues", rebuild(s, residue_filter=lambda i, r, k=k: i in (k, k + 1))))
+        out.append((f"{name}|three-residues", rebuild(s, residue_filter=lambda i, r, k=k: i in (k, k + 1, k + 2))))
     return out
